@@ -298,6 +298,127 @@ def _triple_work(task):
 
 
 # ---------------------------------------------------------------------------
+# (b') what directly follows the directive keyword
+# ---------------------------------------------------------------------------
+# `#pragma` / `#line` are directives exactly when the keyword does not run on
+# into a longer word: every ASCII character class directly after the keyword,
+# with and without blanks between '#' and the keyword, alone and between
+# ordinary token lines.  '$' (an identifier character only by pycparser's
+# extension) and a `#line` that ends the input without a newline are left out:
+# the property does not decide them.
+BOUNDARY_HASH_PARTS = ["#", "# ", "#\t", "  #", " \t# \t"]
+BOUNDARY_CHARS = [chr(c) for c in range(0x20, 0x7F) if chr(c) != "$"] + ["\t", "\n", "EOF"]
+BOUNDARY_FRAMES = [("", "\n"), ("", "\n  b\n"), ("a\n", "\n"), ("a\n", "\n  b\n"), ("a\n", "\n\n b")]
+
+
+def boundary_case(kw, hashpart, c, frame):
+    """-> (text, expected tokens [(type, value, line, col, file)], kind) with
+    kind 'tokens' (compare everything), 'error' (a malformed #line: an error
+    report and no token from the line; later line numbers are not judged) or
+    None (case does not exist)."""
+    pre, post = frame
+    if c == "EOF":
+        if kw == "line":
+            return None
+        post = ""
+        tail = ""
+    elif c == "\n":
+        tail = ""
+    elif c in " \t":
+        tail = c + ("a 1" if kw == "pragma" else '40 "f.h"')
+    else:
+        tail = c + "a 1"
+    line = hashpart + kw + tail
+    text = pre + line + post
+    ln = 2 if pre else 1
+    exp = []
+    if pre:
+        exp.append(("ID", "a", 1, 1, FILENAME))
+    kwcol = len(hashpart) + 1
+    kind = "tokens"
+    nline, nfile = ln + 1, FILENAME
+    idchar = c not in ("EOF", "\n") and c in lexref.IDCHAR
+    if idchar:
+        # the keyword runs on into a longer word: a lone '#' and ordinary tokens
+        exp.append(("PPHASH", "#", ln, hashpart.index("#") + 1, FILENAME))
+        for it in lexref.scan(kw + tail):
+            exp.append((it.type, it.value, ln, kwcol + it.start, FILENAME))
+    elif kw == "pragma":
+        exp.append(("PPPRAGMA", "pragma", ln, kwcol, FILENAME))
+        body = tail.lstrip(" \t")
+        if body:
+            exp.append(("PPPRAGMASTR", body, ln, kwcol + 6 + len(tail) - len(body), FILENAME))
+    elif c in (" ", "\t"):
+        nline, nfile = 40, "f.h"       # a well-formed #line 40 "f.h"
+    else:
+        kind = "error"                 # `#line(`, `#line"f"`, `#line` + newline
+    if "b" in post:
+        at = post.index("b")
+        nlb = post.count("\n", 0, at)      # newlines between the directive and b (>= 1)
+        exp.append(("ID", "b", nline + nlb - 1, at - post.rindex("\n", 0, at), nfile))
+    return text, exp, kind
+
+
+def check_boundary(kw, hashpart, c, frame):
+    bc = boundary_case(kw, hashpart, c, frame)
+    if bc is None:
+        return None
+    text, exp, kind = bc
+    r = run_lexer(text, FILENAME, None)
+    if r.exc is not None:
+        return [("lexer:exception:" + r.exc, f"{text!r}: {r.exc_repr}")], text
+    fails = []
+    if not r.terminated:
+        fails.append(("no-termination", f"{r.calls} token() calls on {len(text)} characters"))
+    cls = "idchar" if (c not in ("EOF", "\n") and c in lexref.IDCHAR) else \
+        "blank" if c in (" ", "\t") else "end" if c in ("\n", "EOF") else "punctuator"
+    if kind == "error":
+        if not r.errs:
+            fails.append((f"line-directive:malformed-not-reported@{cls}",
+                          f"{text!r}: no error report; tokens {r.toks!r}"))
+        got = [(t[0], t[1], t[3]) for t in r.toks]
+        want = [(t[0], t[1], t[3]) for t in exp]
+        if got != want:
+            fails.append((f"line-directive:malformed-tokenised@{cls}",
+                          f"{text!r}: reference {want!r} lexer {got!r}"))
+        return fails, text
+    if r.toks != exp:
+        i = 0
+        while i < min(len(exp), len(r.toks)) and exp[i] == r.toks[i]:
+            i += 1
+        e = exp[i] if i < len(exp) else None
+        g = r.toks[i] if i < len(r.toks) else None
+        what = "type" if (e and g and e[0] != g[0]) else "value" if (e and g and e[1] != g[1]) \
+            else "position" if (e and g) else "missing" if g is None else "extra-token"
+        fails.append((f"{e[0] if e else 'end'}:{what}@after-{kw}-keyword-{cls}",
+                      f"{text!r}: token #{i}: reference {e!r} lexer {g!r}"))
+    if r.errs:
+        fails.append((f"spurious-error@after-{kw}-keyword-{cls}", f"{text!r}: {r.errs[0]!r}"))
+    return fails, text
+
+
+def _boundary_work(task):
+    kw, hashpart = task
+    n = 0
+    fails = []
+    sigs = set()
+    classes = set()
+    for c in BOUNDARY_CHARS:
+        for frame in BOUNDARY_FRAMES:
+            res = check_boundary(kw, hashpart, c, frame)
+            if res is None:
+                continue
+            n += 1
+            fl, text = res
+            for sig, det in fl:
+                if sig not in sigs or len(fails) < 20:
+                    fails.append((sig, {"kind": "boundary", "kw": kw, "hashpart": hashpart, "char": c,
+                                        "frame": list(frame), "text": text}, det))
+                sigs.add(sig)
+    return n, fails
+
+
+# ---------------------------------------------------------------------------
 # (d) CharEx: model-free invariants
 # ---------------------------------------------------------------------------
 def _hash_kind(text, p):
@@ -470,6 +591,14 @@ def run(tier):
             merge(acc)
         triples_n = tot["n"] - pairs_n
 
+    boundary_n = 0
+    for n, fl in core.pmap(_boundary_work, [(kw, h) for kw in ("pragma", "line") for h in BOUNDARY_HASH_PARTS],
+                           chunksize=1):
+        boundary_n += n
+        R.fail_many(fl)
+    if boundary_n < 2 * len(BOUNDARY_HASH_PARTS) * 90 * len(BOUNDARY_FRAMES):
+        R.fail("vacuous:keyword-boundary", {"cases": boundary_n}, "directive keyword boundary part not explored")
+
     L = 4 if quick else 5
     ctasks = [([c], L) for c in lexvocab.CHAREX] + [([""], 1)]
     chars_n = chars_nt = 0
@@ -489,8 +618,9 @@ def run(tier):
 
     R.set("states", tot["ref_items"] + tot["model_tokens"])
     R.set("transitions", tot["ref_chars"] + tot["model_tokens"])
-    R.set("traces_validated_against_impl", tot["n"] + chars_n)
-    R.set("evaluations", tot["n"] + chars_n)
+    R.set("traces_validated_against_impl", tot["n"] + chars_n + boundary_n)
+    R.set("evaluations", tot["n"] + chars_n + boundary_n)
+    R.set("directive_keyword_boundary_cases", boundary_n)
     R.set("distinct_nontrivial", tot["distinct"] + chars_nt)
     R.set("distinct_outcomes", len(tot["outcomes"]))
     R.set("distinct_expected_token_types", len(tot["types"]))
@@ -540,7 +670,13 @@ def run(tier):
 
 def replay(rep):
     c = rep["case"]
-    if c.get("kind") == "chars":
+    if c.get("kind") == "boundary":
+        fl, text = check_boundary(c["kw"], c["hashpart"], c["char"], tuple(c["frame"]))
+        print("input:", repr(text))
+        print("model:", boundary_case(c["kw"], c["hashpart"], c["char"], tuple(c["frame"]))[1:])
+        rr = run_lexer(text, FILENAME)
+        print("lexer:", rr.events, "exception:", rr.exc)
+    elif c.get("kind") == "chars":
         fl, _ = char_invariants(c["text"])
         print("input:", repr(c["text"]))
         r = run_lexer(c["text"], "")
